@@ -238,8 +238,8 @@ def io_shapes(max_len=2):
                     defs += [f'{name} takes P', s[1], 'give back 1', '']
                     body.append(s[2].replace(s[0] + ' taking', name + ' taking'))
                 else: body.append(s)
-            lines = ['X is "init"'] + defs + body + ['say X']
-            out.append(('\n'.join(lines) + '\n', {'out_calls': oc, 'in_calls': ic}))
+            lines = ['X is "init"'] + defs + body + ['say X', 'say X plus 1']          # the second line shows whether X is still a string
+            out.append(('\n'.join(lines) + '\n', {'out_calls': oc + 1, 'in_calls': ic}))
     return out
 
 
